@@ -189,6 +189,7 @@ fn main() {
             println!("{}", serde_json::to_string(&rr.outcome).unwrap());
         }
         "c17-show" => c17::show(&args[2]),
+        "c17-double" => c17::show_double(args[2].parse().unwrap()),
         "replay" => {
             if !shim::present() {
                 eprintln!("HARNESS-ERROR: libsimio.so is not preloaded; run through /verif/check");
